@@ -503,3 +503,41 @@ asn1c_type_fits_long(arg_t *arg, asn1p_expr_t *expr) {
 	return FL_FITS_SIGNED;
 }
 
+/*
+ * Check whether the descriptor of the INTEGER type needs the field_unsigned
+ * flag: the type is represented using unsigned long, or (-fwide-types) using
+ * INTEGER_t restricted to the non-extensible (lb..MAX) range, lb >= 0, which
+ * is represented using unsigned long when -fwide-types is not in effect.
+ */
+int
+asn1c_INTEGER_is_unsigned(arg_t *arg, asn1p_expr_t *expr) {
+	asn1cnst_range_t *range;
+	int ret;
+
+	if(asn1c_type_fits_long(arg, expr) == FL_FITS_UNSIGN)
+		return 1;
+	if(!(arg->flags & A1C_USE_WIDE_TYPES))
+		return 0;
+
+	/* Descend to the terminal type */
+    expr = WITH_MODULE_NAMESPACE(
+        expr->module, expr_ns,
+        asn1f_find_terminal_type_ex(arg->asn, expr_ns, expr));
+	if(expr == 0 || expr->expr_type != ASN_BASIC_INTEGER
+	|| !expr->combined_constraints)
+		return 0;
+
+	range = asn1constraint_compute_PER_range(expr->Identifier, expr->expr_type,
+		expr->combined_constraints, ACT_EL_RANGE, 0, 0, 0);
+	ret = (range
+		&& !range->extensible
+		&& !range->empty_constraint
+		&& !range->incompatible
+		&& !range->not_PER_visible
+		&& range->left.type == ARE_VALUE
+		&& range->left.value >= 0 && range->left.value <= RIGHTMAX
+		&& range->right.type == ARE_MAX);
+	asn1constraint_range_free(range);
+
+	return ret;
+}
